@@ -21,7 +21,8 @@ package rtt
 //@   ensures unknown-key-has-no-measurement: !i.measurement.keys[key] ==> r == nil
 //@   ensures no-recent-sample-no-measurement: (r == nil) == (!i.measurement.keys[key] || recent == 0)
 //@   ensures statistics-over-exactly-the-recent-samples: r != nil ==> (len(vals) == recent && (forall a int :: 0 <= a && a < len(vals) ==> (0 <= src[a] && src[a] < len(c.data) && vals[a] == c.data[src[a]].value)) && (forall a, b int :: 0 <= a && a < b && b < len(vals) ==> src[a] < src[b]))
-//@   loop p: invariant idx: -1 <= rangeindex && rangeindex < len(c.data) && c != nil
+//@   loop p: invariant idx: -1 <= rangeindex && rangeindex < len(c.data)
+//@   loop p: invariant container: c != nil
 //@   loop p: invariant count: len(values) == recent && 0 <= recent && recent <= rangeindex + 1 && fresh(values)
 //@   loop p: invariant from-data: forall a int :: 0 <= a && a < len(values) ==> (0 <= src[a] && src[a] <= rangeindex && values[a] == c.data[src[a]].value)
 //@   loop p: invariant order: forall a, b int :: 0 <= a && a < b && b < len(values) ==> src[a] < src[b]
